@@ -70,6 +70,12 @@ fn code(r: &Result<(), HpoError>) -> V {
 
 /// runs the script; returns (codes, Ok(ontology) | Err) or None when a call panicked
 pub fn run(s: &Script) -> Option<(Vec<V>, Result<Ontology, HpoError>)> {
+    run_bulk(s, None)
+}
+
+/// `bulk` = (tag, first, count): `count` add_gene / add_omim_disease / add_orpha_disease calls with ids
+/// first, first+1, ... and the name "g", made right after connect_all_terms (Model/Bulk.v)
+pub fn run_bulk(s: &Script, bulk: Option<(u8, u32, u32)>) -> Option<(Vec<V>, Result<Ontology, HpoError>)> {
     crate::catch(std::panic::AssertUnwindSafe(|| {
         let mut codes = vec![];
         let mut b = Builder::new();
@@ -82,6 +88,22 @@ pub fn run(s: &Script) -> Option<(Vec<V>, Result<Ontology, HpoError>)> {
             codes.push(code(&b.add_parent(*p, *c)));
         }
         let mut b = b.connect_all_terms();
+        if let Some((tag, first, count)) = bulk {
+            for i in 0..count {
+                match tag {
+                    0 => {
+                        b.add_gene("g", GeneId::from(first + i));
+                    }
+                    1 => {
+                        b.add_omim_disease("g", OmimDiseaseId::from(first + i));
+                    }
+                    _ => {
+                        b.add_orpha_disease("g", OrphaDiseaseId::from(first + i));
+                    }
+                }
+                codes.push(n(0u32));
+            }
+        }
         for (tag, id, term, name) in &s.annots {
             match tag {
                 0 => {
